@@ -61,6 +61,9 @@ SCRIPTS += [
     ["name e2", "version 1.0", "", "Dgate({a}, %(f)s) | %(m)s", "Vac | %(m)s"],
     ["name p14", "version 1.0", "type tdm (temporal_modes=%(i)s)", "", "int array p0 =", "    %(i)s, %(i)s", "float array p12 =", "    %(f)s, %(f)s", "float array B =", "    %(f)s, %(f)s",
      "Gate(p0, {a}) | %(m)s", "Rgate(p12, k=B) | %(m)s", "Sgate({a}*2) | %(m)s"],
+    # an array that as a whole is one array-valued parameter (instantiated with one ndarray / nested list)
+    ["name p15", "version 1.0", "", "float array A[2, 2] =", "    {U}", "Interferometer(A) | [%(m)s, %(m)s]", "Dgate({b}, k=A) | %(m)s", "Vac | %(m)s"],
+    ["name p16", "version 1.0", "target X8", "type tdm", "", "complex array W[1, 3] =", "    {w}", "float array B =", "    %(f)s, {b}", "Gate(W, B) | %(m)s"],
 ]
 OPS = ["dumps", "to_DiGraph", "attributes", "call", "match_as_template", "match_as_program", "dumps_twice", "graph_then_dumps"]
 
@@ -87,6 +90,31 @@ def gen_specs(tier, seed):
             for a, b, c in (("to_DiGraph", "call", "dumps"), ("call", "call", "to_DiGraph"), ("match_as_template", "dumps", "call"), ("attributes", "to_DiGraph", "match_as_template")):
                 specs.append((i, a + "+" + b + "+" + c))
     return specs
+
+
+def call_values(prog, off, shared=None):
+    """keyword values for an instantiation: scalars for plain parameters, ONE ndarray per whole-array parameter (names
+    base_i_j).  `shared`: dict of ndarray objects to pass again (the same objects handed to a second instantiation)"""
+    import re
+    names = sorted(prog.parameters)
+    whole = {}
+    for n in names:
+        m = re.fullmatch(r"(.+)_(\d+)_(\d+)", n)
+        if m and ("%s_0_0" % m.group(1)) in prog.parameters:
+            b = m.group(1)
+            r, c = whole.get(b, (0, 0))
+            whole[b] = (max(r, int(m.group(2)) + 1), max(c, int(m.group(3)) + 1))
+    kw = {}
+    for k, n in enumerate(names):
+        if any(n.startswith(b + "_") for b in whole):
+            continue
+        kw[n] = off + k
+    for b, (r, c) in whole.items():
+        if shared is not None and b in shared:
+            kw[b] = shared[b]
+        else:
+            kw[b] = off + 0.125 + np.arange(r * c, dtype=float).reshape(r, c)
+    return kw
 
 
 def snap(prog, bb):
@@ -120,9 +148,11 @@ def apply_op(op, prog, bb, symbolic, pvals):
     elif op == "call":
         if prog.is_template():
             prog(**{n: pvals(n) for n in prog.parameters})
+            if not symbolic:
+                prog(**call_values(prog, 0.75))
     elif op == "match_as_template":
         if prog.is_template():
-            inst = prog(**{n: 0.5 + 0.25 * k for k, n in enumerate(sorted(prog.parameters))})
+            inst = prog(**call_values(prog, 0.5))
             match_template(prog, inst)
     elif op == "match_as_program":
         pass
@@ -243,7 +273,7 @@ def concrete_check(spec, vals, w=None):
         if op == "match_as_program":
             # the program under test is the second argument of match_template
             if prog.is_template():
-                inst = prog(**{n: 0.5 + 0.25 * k for k, n in enumerate(sorted(prog.parameters))})
+                inst = prog(**call_values(prog, 0.5))
                 i0, it0, i1 = snap(inst, blackbird)
                 match_template(prog, inst)
                 j0, it2, j1 = snap(inst, blackbird)
@@ -264,15 +294,26 @@ def concrete_check(spec, vals, w=None):
         return dict(base, what="%s changed the serialisation" % op, observed=t2, expected=t0)
     # independence of instances
     if prog.is_template():
-        names = sorted(prog.parameters)
-        I1 = prog(**{n: 0.5 + k for k, n in enumerate(names)})
-        I2 = prog(**{n: 1.5 + k for k, n in enumerate(names)})
-        ids = [_snap.mutable_ids(x) for x in (prog, I1, I2)]
-        for (x, y, nm) in ((0, 1, "template/instance"), (0, 2, "template/instance"), (1, 2, "two instances")):
+        kw1 = call_values(prog, 0.5)
+        arrs = {k: v for k, v in kw1.items() if isinstance(v, np.ndarray)}
+        I1 = prog(**kw1)
+        I2 = prog(**call_values(prog, 1.5))
+        # the same value objects handed to two instantiations (array-valued parameters are mutable objects of the caller)
+        I3 = prog(**kw1)
+        I4 = prog(**{k: (v.tolist() if isinstance(v, np.ndarray) else v) for k, v in kw1.items()})
+        ids = [_snap.mutable_ids(x) for x in (prog, I1, I2, I3, I4)]
+        for (x, y, nm) in ((0, 1, "template/instance"), (0, 2, "template/instance"), (1, 2, "two instances"), (1, 3, "two instances made from the same argument objects"),
+                           (0, 3, "template/instance"), (1, 4, "two instances"), (3, 4, "two instances")):
             both = set(ids[x]) & set(ids[y])
             if both:
                 return dict(base, what="%s share mutable state" % nm, observed=repr(sorted(type(ids[x][k]).__name__ for k in both)), expected="disjoint")
+        for b, a in arrs.items():
+            for x in (1, 3):
+                if id(a) in ids[x]:
+                    return dict(base, what="an instance holds the caller's own array object passed for parameter %s" % b, observed="same object", expected="a copy")
+        arrs0 = {b: a.copy() for b, a in arrs.items()}
         sT, sI2 = _snap.program(prog), _snap.program(I2)
+        sI3, sI4 = _snap.program(I3), _snap.program(I4)
         for obj in list(ids[1].values()):
             try:
                 if isinstance(obj, dict):
@@ -285,8 +326,11 @@ def concrete_check(spec, vals, w=None):
                     obj.flat[0] = -99
             except Exception:  # noqa
                 pass
-        if _snap.diff(sT, _snap.program(prog)) or _snap.diff(sI2, _snap.program(I2)):
+        if _snap.diff(sT, _snap.program(prog)) or _snap.diff(sI2, _snap.program(I2)) or _snap.diff(sI3, _snap.program(I3)) or _snap.diff(sI4, _snap.program(I4)):
             return dict(base, what="mutating an instance altered the template or another instance", observed="snapshot changed", expected="unchanged")
+        for b, a in arrs.items():
+            if not np.array_equal(a, arrs0[b]):
+                return dict(base, what="mutating an instance altered the array the caller passed for parameter %s" % b, observed=repr(a), expected=repr(arrs0[b]))
     return None
 
 
